@@ -202,6 +202,112 @@ fn yuv_labels<T: Pixel>(acc: &mut Acc, idx: u64, depth: u8, m: yuvxyb::MatrixCoe
     }
 }
 
+/// `clone()` and `clone_from()` produce an image that exposes exactly what the source exposes,
+/// whatever the destination held before (other data, other labels, the same pixel count in
+/// another shape, another pixel count), and converts exactly like it.
+fn check_copies(acc: &mut Acc, idx: u64) {
+    let bits = |d: &[[f32; 3]]| d.iter().flat_map(|p| p.map(|c| c.to_bits())).collect::<Vec<_>>();
+    let px = |n: usize, k: f32| -> Vec<[f32; 3]> { (0..n).map(|i| [0.05 + 0.03 * i as f32 + k, 0.9 - 0.02 * i as f32, 0.5 + k]).collect() };
+    // (source shape, destination shape): same shape, transposed, smaller, larger
+    let shapes: [((usize, usize), (usize, usize)); 5] = [((6, 4), (6, 4)), ((6, 4), (4, 6)), ((6, 4), (2, 3)), ((2, 3), (6, 4)), ((1, 24), (24, 1))];
+    let labels = [(TC::BT470BG, CP::BT2020), (TC::SRGB, CP::BT709), (TC::PerceptualQuantizer, CP::Film)];
+    macro_rules! float_type {
+        ($name:expr, $mk:expr, $view:expr, $conv:expr) => {{
+            for ((sw, sh), (dw, dh)) in shapes {
+                for li in 0..labels.len() {
+                    let src = $mk(px(sw * sh, 0.0), sw, sh, labels[li]);
+                    let case = || json!({"kind":"c12copy","type":$name});
+                    acc.states += 1;
+                    acc.transitions += 2;
+                    let r = guarded(|| {
+                        let mut dst = $mk(px(dw * dh, 0.25), dw, dh, labels[(li + 1) % labels.len()]);
+                        dst.clone_from(&src);
+                        let c = src.clone();
+                        ($view(&dst) == $view(&src), $view(&c) == $view(&src), $conv(dst) == $conv(src.clone()), $conv(c) == $conv(src.clone()))
+                    });
+                    match r {
+                        Ok((true, true, true, true)) => acc.bucket("clone / clone_from: copy exposes and converts like its source", 1),
+                        Ok(f) => {
+                            acc.violation(idx, format!("copy-differs-from-source type={}", $name), format!("{}: source {sw}x{sh} labels {:?} copied into a {dw}x{dh} image labelled {:?}: clone_from view equal={}, clone view equal={}, clone_from converts alike={}, clone converts alike={}", $name, labels[li], labels[(li + 1) % labels.len()], f.0, f.1, f.2, f.3), case());
+                            return;
+                        }
+                        Err(p) => {
+                            acc.violation(idx, format!("copy-panics type={} {}", $name, panic_site(&p)), p, case());
+                            return;
+                        }
+                    }
+                }
+            }
+        }};
+    }
+    float_type!(
+        "Rgb",
+        |d: Vec<[f32; 3]>, w, h, l: (TC, CP)| Rgb::new(d, w, h, l.0, l.1).unwrap(),
+        |i: &Rgb| (bits(i.data()), i.width(), i.height(), i.transfer(), i.primaries()),
+        |i: Rgb| LinearRgb::try_from(i).map(|o| (bits(o.data()), o.width(), o.height())).map_err(|e| format!("{e:?}"))
+    );
+    float_type!(
+        "LinearRgb",
+        |d: Vec<[f32; 3]>, w, h, _l: (TC, CP)| LinearRgb::new(d, w, h).unwrap(),
+        |i: &LinearRgb| (bits(i.data()), i.width(), i.height()),
+        |i: LinearRgb| { let o = Hsl::from(i); (bits(o.data()), o.width(), o.height()) }
+    );
+    float_type!(
+        "Xyb",
+        |d: Vec<[f32; 3]>, w, h, _l: (TC, CP)| Xyb::new(d, w, h).unwrap(),
+        |i: &Xyb| (bits(i.data()), i.width(), i.height()),
+        |i: Xyb| { let o = LinearRgb::from(i); (bits(o.data()), o.width(), o.height()) }
+    );
+    float_type!(
+        "Hsl",
+        |d: Vec<[f32; 3]>, w, h, _l: (TC, CP)| Hsl::new(d, w, h).unwrap(),
+        |i: &Hsl| (bits(i.data()), i.width(), i.height()),
+        |i: Hsl| { let o = LinearRgb::from(i); (bits(o.data()), o.width(), o.height()) }
+    );
+    // Yuv: other samples, other config, other shape
+    fn yuv_of<T: Pixel>(w: usize, h: usize, ss: (u8, u8), k: u16, m: yuvxyb::MatrixCoefficients) -> Yuv<T> {
+        let (sx, sy) = (ss.0 as usize, ss.1 as usize);
+        let f = yuvxyb::Frame { planes: [
+            crate::img::plane_new::<T>(w, h, 0, 0, 1, 0, |x, y| 16 + k + (x + 3 * y) as u16, None),
+            crate::img::plane_new::<T>(w >> sx, h >> sy, sx, sy, 0, 1, |x, y| 100 + k + (x + y) as u16, None),
+            crate::img::plane_new::<T>(w >> sx, h >> sy, sx, sy, 0, 0, |x, y| 140 + k + (2 * x + y) as u16, None),
+        ] };
+        Yuv::new(f, crate::img::cfg_full(8, k % 2 == 1, ss, m, TC::BT1886, CP::BT709)).unwrap()
+    }
+    fn yuv_view<T: Pixel>(y: &Yuv<T>) -> (Vec<Vec<u16>>, usize, usize, yuvxyb::YuvConfig) {
+        (y.data().iter().map(crate::img::plane_samples).collect(), y.width(), y.height(), y.config())
+    }
+    fn yuv_copies<T: Pixel>(acc: &mut Acc, idx: u64, name: &str) {
+        use yuvxyb::MatrixCoefficients as MC;
+        for ((sw, sh, sss), (dw, dh, dss)) in [((4usize, 4usize, (1u8, 1u8)), (4usize, 4usize, (1u8, 1u8))), ((4, 4, (1, 1)), (4, 4, (0, 0))), ((4, 2, (1, 0)), (2, 4, (0, 1))), ((2, 2, (0, 0)), (8, 4, (1, 1)))] {
+            let case = || json!({"kind":"c12copy","type":name});
+            acc.states += 1;
+            acc.transitions += 2;
+            let r = guarded(|| {
+                let src = yuv_of::<T>(sw, sh, sss, 0, MC::BT709);
+                let mut dst = yuv_of::<T>(dw, dh, dss, 7, MC::ST170M);
+                dst.clone_from(&src);
+                let c = src.clone();
+                let conv = |y: &Yuv<T>| Rgb::try_from(y).map(|o| o.data().iter().flat_map(|p| p.map(|c| c.to_bits())).collect::<Vec<_>>()).map_err(|e| format!("{e:?}"));
+                (yuv_view(&dst) == yuv_view(&src), yuv_view(&c) == yuv_view(&src), conv(&dst) == conv(&src), conv(&c) == conv(&src))
+            });
+            match r {
+                Ok((true, true, true, true)) => acc.bucket("clone / clone_from: copy exposes and converts like its source", 1),
+                Ok(f) => {
+                    acc.violation(idx, format!("copy-differs-from-source type={name}"), format!("{name}: {sw}x{sh} ss {sss:?} copied into {dw}x{dh} ss {dss:?}: clone_from view equal={}, clone view equal={}, converts alike={}/{}", f.0, f.1, f.2, f.3), case());
+                    return;
+                }
+                Err(p) => {
+                    acc.violation(idx, format!("copy-panics type={name} {}", panic_site(&p)), p, case());
+                    return;
+                }
+            }
+        }
+    }
+    yuv_copies::<u8>(acc, idx, "Yuv<u8>");
+    yuv_copies::<u16>(acc, idx, "Yuv<u16>");
+}
+
 pub fn run(tier: Tier) -> Report {
     let mut rep = Report::new("C12");
     // (1) small box, full product
@@ -258,7 +364,15 @@ pub fn run(tier: Tier) -> Report {
             let len = frame.planes[p].data.len();
             for i in 0..len {
                 let vis = raw_index_visible(&frame.planes[p], i);
-                for val in [b.max_code() + 1, b.max_code() + 2, 65535] {
+                // 2^n, 2^n + 1, every single higher bit alone (2^k, k > n: a mask test that looks at one
+                // bit only sees one of them), 2^k + 2^(n-1), and 65535
+                let n = b.depth as u32;
+                let mut vals: Vec<u16> = vec![b.max_code() + 1, b.max_code() + 2, 65535];
+                for k in n + 1..16 {
+                    vals.push(1u16 << k);
+                    vals.push((1u16 << k) | (1u16 << (n - 1)));
+                }
+                for val in vals {
                     let mut s = *b;
                     s.bad = Some((p, i, val));
                     check_spec(acc, base_idx + lo, &s, if vis { "bad visible sample" } else { "bad padding sample" });
@@ -293,8 +407,13 @@ pub fn run(tier: Tier) -> Report {
         }
         rep.acc.merge(acc);
     }
+    {
+        let mut acc = Acc::default();
+        check_copies(&mut acc, base_idx);
+        rep.acc.merge(acc);
+    }
     rep.bound = format!(
-        "(1) full product of luma w,h in 1..={} x common chroma size 0..=w+1 x 0..=h+1 x chroma decimation 0..=2^2 x config subsampling 0..=2^2 x u8/u16 x padding {{0,1,17}} = {} frames; (2) every well-formed base with luma sizes in {:?}, valid subsampling, (u8,8)/(u16,10)/(u16,16), padding {{0,1,17}} ({} bases) with every single deviation and (sizes <= 12) every pair of deviations (chroma size, decimation, config subsampling, luma size, per-plane padding, from_slice construction, one out-of-range sample); (3) one out-of-range sample (2^n, 2^n+1, 65535) at EVERY raw buffer position (visible and padding) of every plane for {} geometries x depths 8..15; (4) all (len,w,h) in 0..=40 cubed for the four float constructors (each with an exact-capacity, an over-allocated and a w*h-reserved buffer), all 19x14 label pairs for Rgb::new and all 15x19x14 metadata triples for Yuv::new (u8/8 bit, u16/10 bit): specified metadata is exposed as given",
+        "(1) full product of luma w,h in 1..={} x common chroma size 0..=w+1 x 0..=h+1 x chroma decimation 0..=2^2 x config subsampling 0..=2^2 x u8/u16 x padding {{0,1,17}} = {} frames; (2) every well-formed base with luma sizes in {:?}, valid subsampling, (u8,8)/(u16,10)/(u16,16), padding {{0,1,17}} ({} bases) with every single deviation and (sizes <= 12) every pair of deviations (chroma size, decimation, config subsampling, luma size, per-plane padding, from_slice construction, one out-of-range sample); (3) one out-of-range sample (2^n, 2^n+1, every 2^k and 2^k+2^(n-1) for k > n, 65535) at EVERY raw buffer position (visible and padding) of every plane for {} geometries x depths 8..15; (4) all (len,w,h) in 0..=40 cubed for the four float constructors (each with an exact-capacity, an over-allocated and a w*h-reserved buffer), all 19x14 label pairs for Rgb::new and all 15x19x14 metadata triples for Yuv::new (u8/8 bit, u16/10 bit): specified metadata is exposed as given; clone() and clone_from() of all five image types into destinations of the same, transposed, smaller and larger shape with other labels / configs",
         tier.pick(5, 7), sb.len(), dev_sizes(tier == Tier::Thorough), bs.len(), sweeps.len()
     );
     rep.rule = "Yuv::new verdict vs the reference predicate transcribed from the statement (accept <=> predicate; on reject the variant must name a violated condition; padding samples never matter; accepted images are verbatim); float constructors: Ok <=> len == w*h else ResolutionMismatch, data verbatim".into();
@@ -311,6 +430,7 @@ pub fn run(tier: Tier) -> Report {
     rep.guard_bucket("float constructor: ResolutionMismatch");
     rep.guard_bucket("Rgb::new over all label pairs: contract holds, labels kept");
     rep.guard_bucket("Yuv::new over all metadata triples: accepted, config kept");
+    rep.guard_bucket("clone / clone_from: copy exposes and converts like its source");
     rep
 }
 
@@ -318,6 +438,8 @@ pub fn replay(case: &Value) -> (bool, String) {
     let mut acc = Acc::default();
     if case["kind"] == "c12" {
         check_spec(&mut acc, 0, &FSpec::from_json(&case["spec"]), "replay");
+    } else if case["kind"] == "c12copy" {
+        check_copies(&mut acc, 0);
     } else if case["kind"] == "c12labels" {
         let g = |k: &str| case[k].as_u64().unwrap() as usize;
         rgb_labels(&mut acc, 0, g("len"), g("w"), g("h"), crate::refmodel::tc_from_name(case["transfer"].as_str().unwrap()), crate::refmodel::cp_from_name(case["primaries"].as_str().unwrap()));
